@@ -127,17 +127,24 @@ def gen_scenario(rng, bias=None):
     if not contract and rng.random() < bias.get('p_endless', 0.0):
         # a pass that never says STOP and whose helper only fails: only the give-up limit ends it
         q = passes[rng.randrange(npass)]
-        kind = rng.choice(['ERROR', 'INVALID', 'mixed'])
+        kind = rng.choice(['ERROR', 'INVALID', 'mixed', 'REJECT', 'REJECT', 'mixed-reject'])
+        if 'REJECT' in kind or kind == 'mixed-reject':
+            # candidates that are valid (OK, changed) but never interesting: a fresh content on which the test always
+            # exits 1 (no table entry -> exit 1 on both sides)
+            texts.append('never interesting %d\n' % rng.getrandbits(20))
+        rej = len(texts) - 1
         for c in range(nc):
             q['new'][str(c)] = 0
             for s_ in range(S):
                 q['adv'][f'{c}.{s_}'] = (s_ + 1) % S
-                q['tr'][f'{c}.{s_}'] = [kind if kind != 'mixed' else rng.choice(['ERROR', 'INVALID']), c, s_]
+                k2 = {'mixed': rng.choice(['ERROR', 'INVALID']), 'mixed-reject': rng.choice(['REJECT', 'INVALID', 'REJECT'])}.get(kind, kind)
+                q['tr'][f'{c}.{s_}'] = ['OK', rej, s_] if k2 == 'REJECT' else [k2, c, s_]
         q['maxT'] = None
         cfg['noGiveUp'] = False
         cfg['die'] = False
         consts = dict(consts, GIVEUP_CONSTANT=rng.choice([2, 5, 9]), MAX_CRASH_DIRS=consts.get('MAX_CRASH_DIRS', 10))
     scen = {'texts': texts, 'files': files, 'disk': disk, 'passes': passes, 'groups': groups, 'cfg': cfg, 'consts': consts,
+            'endless': locals().get('kind') if 'q' in locals() else None, 'S': S,
             'test': test, 'faults': faults, 'N': rng.choice([1, 2, 2, 3, 4]), 'p_done': rng.choice([0.0, 0.3, 0.6, 1.0]),
             'wait_policy': rng.choice(['first', 'random']), 'mode': 'reduce', 'contract': contract, 'rank': rank, 'fuel': 400}
     return scen
@@ -328,6 +335,21 @@ def oracle_C16(scen, obs):
             if cfg.get('maxImp') is not None and size[disk[fi]] - size[c] > cfg['maxImp']:
                 return 'step-larger-than-max-improvement'
         disk[fi] = c
+    return None
+
+
+def oracle_giveup(scen, obs):
+    """a pass that only produces rejected candidates (scenario family `endless`: it never says STOP, every candidate is an
+    ERROR / INVALID result or a valid candidate the test rejects) is abandoned after the give-up limit"""
+    if not scen.get('endless') or scen['cfg'].get('noGiveUp'):
+        return None
+    if scen['endless'] in ('ERROR', 'mixed') and not scen['cfg'].get('silent'):
+        return None           # a reported helper ERROR ends the round by itself
+    limit = scen.get('consts', {}).get('GIVEUP_CONSTANT', 50000)
+    bound = max(scen.get('S', 8), limit + scen.get('N', 2) + 1)
+    worst = max([o for _, o in obs['scheduled']], default=0)
+    if worst > bound:
+        return 'pass-not-abandoned-after-the-give-up-limit'
     return None
 
 
